@@ -1,0 +1,15 @@
+//go:build verif
+
+package relay
+
+// Hooks for the verification harness (build tag "verif" only).
+
+// VerifPending returns the number of lines waiting in the buffer channel.
+func (r *Relay) VerifPending() int {
+	return len(r.bufferChannel)
+}
+
+// VerifCloseConn closes the outgoing socket so that every later send fails.
+func (r *Relay) VerifCloseConn() error {
+	return r.conn.Close()
+}
